@@ -216,11 +216,17 @@ class PosePath3D(object):
         # Project poses and rotations (forcing to angle around normal).
         rotation_axis = np.zeros(3)
         rotation_axis[null_dim] = 1
+        projected_poses = []
         for pose in self.poses_se3:
+            # Work on a copy: the matrices can be shared with other objects
+            # (e.g. the trajectory that this one was split from).
+            pose = np.array(pose)
             pose[null_dim, 3] = 0
             angle_axis = rotation_axis * tr.euler_from_matrix(
                 pose[:3, :3], "sxyz")[null_dim]
             pose[:3, :3] = lie.so3_exp(angle_axis)
+            projected_poses.append(pose)
+        self._poses_se3 = projected_poses
 
         # Flush cached data that will be regenerated on demand via @property.
         if hasattr(self, "_positions_xyz"):
